@@ -139,6 +139,9 @@ TraceNext ==
           /\ ((e.ev = "Resync" /\ KF_ResyncOrphan(S)
                 /\ \E c \in IDs : S'.blob[c] /\ Cat[c].par # 0 /\ ~Has(S', c) /\ S'.garb[c] = "none")
                    => PrintT("KF {\"C18-child-after-parent-tombstone-orphaned\"}"))
+          /\ ((e.ev = "Resync" /\ KF_ResyncExpiredParent(S, epoch)
+                /\ \E c \in IDs : S'.blob[c] /\ Cat[c].par # 0 /\ ~Has(S', c) /\ S'.garb[c] = "none")
+                   => PrintT("KF {\"C18-sibling-of-expired-parent-orphaned\"}"))
           /\ ((e.ev = "Resync" /\ e.res = "err" /\ KF_ResyncAbort(S)) => PrintT("KF {\"C18-resync-aborts\"}"))
           /\ ViewMatches(S', epoch', e.v)
           \* C02, ObjectsNumber: exact as long as every garbage mark names a physically stored, not yet marked
@@ -169,7 +172,7 @@ TraceNotStuck == l <= Len(Trace) => (ENABLED TraceNext \/ (PrintT("EXPECT " \o T
 C02_CountersMatchRecount == bad = "none"
 C02_ObjectsNumberExact == cntBad = "none"
 \* C18: every enumeration order of the blobs rebuilds the same object statuses (outside the listed conflict class)
-C18_OrderIndependent == (lastEv = "Resync" /\ rsv # <<>>) => (StatusVec(S, epoch) = rsv \/ KF_ResyncConflict(S, epoch) \/ KF_ResyncAbort(S) \/ KF_ResyncOrphan(S))
+C18_OrderIndependent == (lastEv = "Resync" /\ rsv # <<>>) => (StatusVec(S, epoch) = rsv \/ KF_ResyncConflict(S, epoch) \/ KF_ResyncAbort(S) \/ KF_ResyncOrphan(S) \/ KF_ResyncExpiredParent(S, epoch))
 \* C18: after a rebuild GC can reclaim every removed object: every tombstoned id with a blob is in the garbage listing
 C18_RemovedReclaimable ==
   lastEv = "Resync" => \A i \in IDs :
